@@ -246,6 +246,7 @@ package yqlib
 //@   ensures @fresh-copy result != nil && fresh(result) && sameScalarAttrs(result, n) && result.IsMapKey == n.IsMapKey && result.Parent == n.Parent
 //@   ensures @key-copied {C02,C03,C07,C16} implies(n.Key == nil, result.Key == nil) && implies(n.Key != nil, result.Key != nil && fresh(result.Key) && result.Key.Value == n.Key.Value && result.Key.Tag == n.Key.Tag && result.Key.Kind == n.Key.Kind)
 //@   ensures @content-length len(result.Content) == ite(cloneContent, len(n.Content), 0) && freshSlice(result.Content)
+//@   ensures @position-copied {C10} result.document == n.document && result.fileIndex == n.fileIndex && result.filename == n.filename
 //@   ensures @children-fresh forall(i, 0, len(result.Content), result.Content[i] != nil && fresh(result.Content[i]) && result.Content[i].Parent == result)
 
 //@ func (*CandidateNode).Copy
@@ -262,6 +263,7 @@ package yqlib
 //@   ensures @fresh-copy result != nil && fresh(result) && sameScalarAttrs(result, n) && result.IsMapKey == n.IsMapKey && result.Parent == n.Parent
 //@   ensures @key-copied implies(n.Key == nil, result.Key == nil) && implies(n.Key != nil, result.Key != nil && fresh(result.Key) && result.Key.Value == n.Key.Value)
 //@   ensures @no-content len(result.Content) == 0 && freshSlice(result.Content)
+//@   ensures @position-copied {C10} result.document == n.document && result.fileIndex == n.fileIndex && result.filename == n.filename
 
 //@ func (*CandidateNode).AddChild
 //@   props C02 C03 C07 C16 C11
@@ -1599,12 +1601,14 @@ package yqlib
 //@ func (*base64Decoder).Decode
 //@   props C10
 //@   nosafety
+//@   nopre
 //@   noframe
 //@   ensures @a-node-or-an-error {C11,C10} implies(result1 == nil, result0 != nil)
 
 //@ func (*csvObjectDecoder).Decode
 //@   props C10
 //@   nosafety
+//@   nopre
 //@   noframe
 //@   ensures @a-node-or-an-error {C11,C10} implies(result1 == nil, result0 != nil)
 //@   loop 1:
@@ -1613,48 +1617,56 @@ package yqlib
 //@ func (*goccyYamlDecoder).Decode
 //@   props C10
 //@   nosafety
+//@   nopre
 //@   noframe
 //@   ensures @a-node-or-an-error {C11,C10} implies(result1 == nil, result0 != nil)
 
 //@ func (*jsonDecoder).Decode
 //@   props C10
 //@   nosafety
+//@   nopre
 //@   noframe
 //@   ensures @a-node-or-an-error {C11,C10} implies(result1 == nil, result0 != nil)
 
 //@ func (*luaDecoder).Decode
 //@   props C10
 //@   nosafety
+//@   nopre
 //@   noframe
 //@   ensures @a-node-or-an-error {C11,C10} implies(result1 == nil, result0 != nil)
 
 //@ func (*propertiesDecoder).Decode
 //@   props C10
 //@   nosafety
+//@   nopre
 //@   noframe
 //@   ensures @a-node-or-an-error {C11,C10} implies(result1 == nil, result0 != nil)
 
 //@ func (*tomlDecoder).Decode
 //@   props C10
 //@   nosafety
+//@   nopre
 //@   noframe
 //@   ensures @a-node-or-an-error {C11,C10} implies(result1 == nil, result0 != nil)
 
 //@ func (*uriDecoder).Decode
 //@   props C10
 //@   nosafety
+//@   nopre
 //@   noframe
 //@   ensures @a-node-or-an-error {C11,C10} implies(result1 == nil, result0 != nil)
 
 //@ func (*xmlDecoder).Decode
 //@   props C10
 //@   nosafety
+//@   nopre
 //@   noframe
 //@   ensures @a-node-or-an-error {C11,C10} implies(result1 == nil, result0 != nil)
 
 //@ func (*yamlDecoder).Decode
 //@   props C10
 //@   nosafety
+//@   nopre
 //@   noframe
 //@   ensures @a-node-or-an-error {C11,C10} implies(result1 == nil, result0 != nil)
 
@@ -1682,3 +1694,19 @@ package yqlib
 //@   nosafety
 //@   noframe
 //@   ensures @a-node {C11,C10} result != nil
+
+// operator_sort.go: the sorted container stands where its input stood (same document, file index and file
+// name: the printer separates documents by them, C10) and owns the entries it is given (C16)
+//@ func sortByOperator
+//@   props C10 C16
+//@   nosafety
+//@   nopre
+//@   noframe
+//@   at PushBack: assert @the-result-stands-where-its-input-stood {C10} arg1 == iface(sortedList) && sortedList.document == candidate.document && sortedList.fileIndex == candidate.fileIndex && sortedList.filename == candidate.filename
+//@   at PushBack: assert @a-container-that-owns-its-children {C16} ownsItsChildren(sortedList)
+//@   loop 2:
+//@     invariant @owned-so-far {C16} ownsItsChildren(sortedList)
+//@     invariant @position-kept {C10} sortedList != nil && sortedList.document == candidate.document && sortedList.fileIndex == candidate.fileIndex && sortedList.filename == candidate.filename
+//@   loop 3:
+//@     invariant @owned-so-far {C16} ownsItsChildren(sortedList)
+//@     invariant @position-kept {C10} sortedList != nil && sortedList.document == candidate.document && sortedList.fileIndex == candidate.fileIndex && sortedList.filename == candidate.filename
